@@ -408,7 +408,7 @@ func init() {
 		}
 		n := 500
 		if thorough() {
-			n = 6000
+			n = 40000
 		}
 		var jobs []func()
 		gens := []struct {
